@@ -8,6 +8,15 @@ fn is_idle_key(c: KeyCode) -> bool {
     matches!(c, Enter | Esc | Tab | Backspace | Del | Left | Right | Up | Down | Home | End | PageUp | PageDown)
 }
 
+thread_local! {
+    static BELLS: std::cell::RefCell<[u64; 6]> = std::cell::RefCell::new([0; 6]);
+}
+
+fn is_digit_key(c: KeyCode) -> bool {
+    use KeyCode::*;
+    matches!(c, N1 | N2 | N3 | N4 | N5 | N6 | N7 | N8 | N9 | N0)
+}
+
 pub fn check(out: &mut Out, st: &Step) {
     let code = match st.key {
         Some(ev) => ev.code,
@@ -69,6 +78,58 @@ pub fn check(out: &mut Out, st: &Step) {
         if st.display_pre != st.display_post || st.len_pre != st.len_post {
             out.oracle_fail("C06", "new", &format!("bell changed the displayed pre-edit text {:?} -> {:?}: {}", st.display_pre, st.display_post, st.hist()));
         }
+        // … and everything else `bell_keeps_display` / `bell_effect` (Props/C06.lean) say of the model: the WHOLE state
+        // section (state kind; an open list's page, action, selector kind, range / sub-menu / symbol; a highlight's
+        // mark), engine + symbol tables, the 14 options, the chosen alternative, the dictionaries, no commit string,
+        // the candidate getters.  The phonetic buffer too: the editor keeps whatever state the layout is in after a
+        // key it rejected (theorem premise LayoutQuietAt) - the shipped layouts must not move on such a key.
+        let names = ["state / open list (page, action, selector)", "", "phonetic buffer (the layout changed state on a key it rejected)", "engine / symbol tables", "options"];
+        let mut diff: Vec<&str> = [0usize, 2, 3, 4].iter().filter(|i| a[**i] != b[**i]).map(|i| names[*i]).collect();
+        if ma[2] != mb[2] {
+            diff.push("chosen alternative");
+        }
+        if st.dict_pre != st.dict_post {
+            diff.push("dictionary");
+        }
+        if !diff.is_empty() {
+            out.oracle_fail("C06", "new", &format!("bell changed persistent state ({}): {}", diff.join(", "), st.hist()));
+        }
+        if mb[3] != "x" {
+            out.oracle_fail("C06", "new", &format!("commit string {} available after a bell: {}", mb[3], st.hist()));
+        }
+        // the one bell that comes with a notification: Ctrl + digit in Entering (a failed "add phrase"), bellMayNotify
+        let notify_arm = a[0].as_bytes()[0] == b'E' && st.key.map_or(false, |ev| ev.modifiers.ctrl && is_digit_key(ev.code));
+        if mb[4] != "x" && !notify_arm {
+            out.oracle_fail("C06", "new", &format!("notification {} shown after a bell outside Ctrl-digit in Entering: {}", mb[4], st.hist()));
+        }
+        let cands = |c: Option<&CandView>| c.map(|c| (c.panicked, c.page_no, c.total_page, c.per, c.all.clone(), c.paginated.clone()));
+        if cands(st.cand_pre) != cands(st.cand_post) {
+            out.oracle_fail("C06", "new", &format!("bell changed the candidate list (open / page / choices): {}", st.hist()));
+        }
+        // cumulative counts (the orchestrator keeps the last value printed)
+        BELLS.with(|c| {
+            let mut c = c.borrow_mut();
+            c[0] += 1;
+            if st.cand_pre.is_some() {
+                c[1] += 1;
+            }
+            if mb[4] != "x" {
+                c[2] += 1;
+            }
+            match a[0].as_bytes()[0] {
+                b'E' => c[3] += 1,
+                b'Y' => c[4] += 1,
+                _ => {}
+            }
+            if c[0] % 16 == 0 || c[5] != st.sid + 1 {
+                c[5] = st.sid + 1;
+                out.stat("c06_bell_steps", c[0]);
+                out.stat("c06_bell_steps.list_open", c[1]);
+                out.stat("c06_bell_steps.with_notification", c[2]);
+                out.stat("c06_bell_steps.entering", c[3]);
+                out.stat("c06_bell_steps.entering_syllable", c[4]);
+            }
+        });
     }
     // pass-through when nothing is being composed (state Entering; an open list / highlight is composing)
     if com_is_empty(pre) && syl_is_empty(pre) && is_idle_key(code) && ret != "I" {
